@@ -15,27 +15,28 @@ Definition run_checker {K} (ev : K -> event -> K) (fin : K -> K) (k0 : K) (tr : 
 (* at every observation (end of each operation, entry of each user callback):
    is_connected() -> a socket is held, and on that socket an accepting CONNACK was processed
    (on_connect(0) ran) and the connection has not ended since *)
-Record k1 := mkK1 { k1_cur : option Z; k1_est : bool; k1_ok : bool }.
-Definition k1_init := mkK1 None false true.
+Record k1 := mkK1 { k1_cur : option Z; k1_est : bool; k1_repl : bool; k1_ok : bool }.
+Definition k1_init := mkK1 None false false true.
+(* k1_repl: the last connection end was a replacement by connect()/reconnect() (used by k1x_ev only) *)
 Definition k1_ev (k : k1) (e : event) : k1 :=
   match e with
-  | SockNew id => mkK1 (Some id) false (k1_ok k)
-  | ConnEnd _ _ => mkK1 None false (k1_ok k)
-  | CbConnect rc => mkK1 (k1_cur k) (k1_est k || ((rc =? 0) && is_some (k1_cur k))) (k1_ok k)
-  | Obs _ conn hs _ _ => mkK1 (k1_cur k) (k1_est k) (k1_ok k && (negb conn || (hs && k1_est k)))
+  | SockNew id => mkK1 (Some id) false false (k1_ok k)
+  | ConnEnd _ r => mkK1 None false (is_replaced r) (k1_ok k)
+  | CbConnect rc => mkK1 (k1_cur k) (k1_est k || ((rc =? 0) && is_some (k1_cur k))) (k1_repl k) (k1_ok k)
+  | Obs _ conn hs _ _ => mkK1 (k1_cur k) (k1_est k) (k1_repl k) (k1_ok k && (negb conn || (hs && k1_est k)))
   | _ => k
   end.
 Definition c10_connected_ok (tr : list (list event)) : bool :=
   k1_ok (run_checker k1_ev (fun k => k) k1_init tr).
 
 (* the same, not judging the observations made at the entry of on_socket_close and
-   on_socket_unregister_write (finding F-C10h: there is_connected() is still true although
-   socket() is already None) *)
+   on_socket_unregister_write while connect()/reconnect() replaces a connection (finding F-C10h:
+   connect_async() closes the socket before it leaves the connected state) *)
 Definition teardown_site (w : wher) : bool :=
   match w with WCb SiClose | WCb SiUnregW => true | _ => false end.
 Definition k1x_ev (k : k1) (e : event) : k1 :=
   match e with
-  | Obs w _ _ _ _ => if teardown_site w then k else k1_ev k e
+  | Obs w _ _ _ _ => if teardown_site w && k1_repl k then k else k1_ev k e
   | _ => k1_ev k e
   end.
 Definition c10_connected_x_ok (tr : list (list event)) : bool :=
